@@ -103,7 +103,11 @@ func typedColourCases(c *corrCtx, prop string, opaqueOnly bool, n int) {
 				}
 				col := typedColor(kind, v, opaque)
 				cr, cg, cb, ca := col.RGBA()
-				for _, fn := range []string{"fromenc", "fromlin", "linearise", "encode"} {
+				fnList := []string{"fromenc", "fromlin", "linearise", "encode"}
+				if prop == "C02" {
+					fnList = []string{"encode"}
+				}
+				for _, fn := range fnList {
 					var out []uint64
 					switch fn {
 					case "fromenc":
@@ -130,6 +134,21 @@ func typedColourCases(c *corrCtx, prop string, opaqueOnly bool, n int) {
 					case "encode":
 						p := s.encode(col)
 						out = []uint64{uint64(p.R), uint64(p.G), uint64(p.B), uint64(p.A)}
+						if prop == "C02" && ca == 0xffff {
+							// an opaque colour of any type encodes to the 16-bit encoder's codes of its components
+							want := s.toRGBA64([3]float32{float32(cr) / 65535, float32(cg) / 65535, float32(cb) / 65535}, 1)
+							d16 := func(a, b uint16) int {
+								if a > b {
+									return int(a - b)
+								}
+								return int(b - a)
+							}
+							// one code of slack: the claim is accuracy to the 16-bit table's resolution, whatever the type
+							if d16(want.R, p.R) > 1 || d16(want.G, p.G) > 1 || d16(want.B, p.B) > 1 || p.A != want.A {
+								c.direct(fmt.Sprintf("C02/typed-encode/%s/%s/%04x%04x%04x", s.name, kind, cr, cg, cb), "EncodeColor of an opaque colour is more than one code away from the 16-bit encoder applied to its components (precision depends on the colour's Go type)",
+									map[string]interface{}{"space": s.name, "type": fmt.Sprintf("%T", col), "colour": fmt.Sprintf("%v", col), "rgba": []uint32{cr, cg, cb, ca}, "got": []uint16{p.R, p.G, p.B, p.A}, "want": []uint16{want.R, want.G, want.B, want.A}})
+							}
+						}
 						if uint32(p.A) != ca {
 							c.direct(fmt.Sprintf("%s/typed-alpha/%s/%s/enc/%04x", prop, s.name, kind, ca), "EncodeColor changes alpha",
 								map[string]interface{}{"space": s.name, "type": fmt.Sprintf("%T", col), "colour": fmt.Sprintf("%v", col), "alpha_in": ca, "alpha_out": p.A})
